@@ -65,7 +65,7 @@ class C05(Campaign):
     def knobs(self, rnd, tier):
         return gen.knobs(async_modes=["none"], drivers=["sync"], senders=(0, 2), rtc=[True],
                          allow=[False, False, True], p_validator=0.3, p_expr_guard=0.12 if rnd.random() < 0.5 else 0.0,
-                         n_ops=(3, 14), p_cond=0.5, p_unless=0.3)
+                         n_ops=(3, 14), p_cond=0.5, p_unless=0.3, p_guard_any_value=0.4)
 
     def scenario(self, rnd, tier):
         sc = super().scenario(rnd, tier)
